@@ -120,6 +120,12 @@ struct iauth_xquery_client {
     /** Bitmask of services that sent OK responses to this client. */
     uint32_t ok_mask;
 
+    /** Value of #iauth_xquery_epoch when the masks above were last
+     * checked against the service table (see
+     * iauth_xquery_forget_stale()).
+     */
+    unsigned int epoch;
+
     /** Account name concatenated with password; empty if unknown.
      *
      * This is the value passed by the client in its *first* PASSWORD
@@ -175,6 +181,9 @@ struct iauth_xquery_service {
     /** Number of unlinked responses for this service. */
     unsigned int unlinked;
 
+    /** Value of #iauth_xquery_epoch when this service got its slot. */
+    unsigned int epoch;
+
     /** Name of the service. */
     char name[1];
 };
@@ -189,6 +198,11 @@ static struct iauth_module iauth_xquery;
 static struct log_type *iauth_xquery_log;
 static struct iauth_xquery_services iauth_xquery_services;
 static struct iauth_flagset iauth_xquery_flags[4];
+
+/** Incremented each time a service is put into a slot of
+ * #iauth_xquery_services.
+ */
+static unsigned int iauth_xquery_epoch;
 
 static struct {
     unsigned long n_cli_allocs;
@@ -257,6 +271,32 @@ static void iauth_xquery_unref(unsigned int ii)
     iauth_xquery_services.vec[ii] = NULL;
     xfree(srv);
     stats.n_srv_frees++;
+}
+
+/** Drops what \a cli remembers about service slots that have since
+ * been given to another service.
+ *
+ * The masks in \a cli are indexed by slot.  A slot that a removed
+ * service left is handed to the next new service; a client that was
+ * already connected then would take the old service's "already
+ * asked", "wants more" and "said OK" bits for the new one.
+ */
+static void iauth_xquery_forget_stale(struct iauth_xquery_client *cli)
+{
+    struct iauth_xquery_service *srv;
+    unsigned int ii;
+
+    if (cli->epoch == iauth_xquery_epoch)
+        return;
+    for (ii = 0; ii < iauth_xquery_services.used; ++ii) {
+        srv = iauth_xquery_services.vec[ii];
+        if (!srv || (int)(srv->epoch - cli->epoch) <= 0)
+            continue;
+        cli->sent_mask &= ~(1u << ii);
+        cli->more_mask &= ~(1u << ii);
+        cli->ok_mask &= ~(1u << ii);
+    }
+    cli->epoch = iauth_xquery_epoch;
 }
 
 static void iauth_xquery_set_account(struct iauth_request *req,
@@ -378,6 +418,7 @@ static void iauth_xquery_new_client(struct iauth_request *req)
     node = set_node_alloc(sizeof(*cli));
     cli = set_node_data(node);
     cli->key = &iauth_xquery;
+    cli->epoch = iauth_xquery_epoch;
     set_insert(&req->data, node);
 }
 
@@ -397,6 +438,7 @@ static void iauth_xquery_check(struct iauth_request *req,
     cli = set_find(&req->data, &ptr);
     if (!cli)
         return;
+    iauth_xquery_forget_stale(cli);
 
     /* Send the request off to the xquery services. */
     routing[0] = '\0';
@@ -545,6 +587,7 @@ static void iauth_xquery_password(struct iauth_request *req,
     cli = set_find(&req->data, &ptr);
     if (!cli)
         return;
+    iauth_xquery_forget_stale(cli);
 
     if ((cli->more_mask == 0) || (cli->password[0] == '\0')) {
         iauth_xquery_check_password(req, cli, password);
@@ -608,6 +651,7 @@ static void iauth_xquery_config_service(const char *name, const char *type)
         stats.n_srv_allocs++;
         srv = xmalloc(sizeof(*srv) + strlen(name));
         strcpy(srv->name, name);
+        srv->epoch = ++iauth_xquery_epoch;
 
         /* Try to insert it in an empty slot. */
         for (ii = 0; ii < iauth_xquery_services.used; ++ii) {
@@ -739,6 +783,7 @@ int iauth_xreply_ok(struct iauth_request *request, const char *service)
     cli = set_find(&request->data, &ptr);
     if (!cli)
         return -1;
+    iauth_xquery_forget_stale(cli);
 
     for (ii = 0; ii < iauth_xquery_services.used; ++ii)
     {
